@@ -16,8 +16,10 @@ CLAIM = dict(
           "HTTP handler (thorough tier additionally under the Go race detector, as supporting evidence only)."),
     note=("Coq 8.16.1 kernel and vm_compute; hand-written abstract model of what executions share (predefined values, the interpreter's "
           "finder field), tied to /repo by the per-run correspondence; 'free of data races' in the sense of the Go memory model is not "
-          "expressible in the model: the race detector run is supporting evidence, not proof; library export objects are immutable "
-          "functions in this tree (stdlib/http does not build) and are not modelled."),
+          "expressible in the model: the race detector run is supporting evidence, not proof; the types a library exports (the harness "
+          "registers @HTTP with pkg/common's HTTP请求 / HTTP响应 the way stdlib/http does, which does not compile in this tree) are not in "
+          "the model: for them the check compares a probe's outcome after generated polluters (in-place and assigning updates of every "
+          "property of objects built from those types) with its outcome alone, through shared and separate interpreter objects."),
     technique="Coq proof (induction over program sequences; invariant over all handler interleavings) + in-process polluter/interleaving correspondence",
     design="5/C16")
 
@@ -130,6 +132,79 @@ def gen_prog(rng, polluter):
     return ops
 
 
+# ---- library objects: the types a library exports are process-wide values; what one execution does to an object it
+# built from them (or to what the object's properties hold) must not show in an object another execution builds
+LIB_CTORS = {
+    "HTTP响应": ["（新建HTTP响应：200、“你好”）", "（新建HTTP响应：404、【“a” = 1】）", "（新建HTTP响应：200、【1，2】）",
+               "（新建HTTP响应：500、12）", "（新建HTTP响应：200、“x”、【“H” = “v”】）"],
+    "HTTP请求": ["（新建HTTP请求：“GET”、“http://a”）", "（新建HTTP请求：“POST”、“http://a”、“b=1”）",
+               "（新建HTTP请求：“POST”、“http://a”、【“k” = 【1】】）"],
+}
+LIB_PROPS = {"HTTP响应": ["状态码", "头部", "内容"], "HTTP请求": ["URL", "路径", "方法", "头部", "查询参数", "内容"]}
+LIB_DICTS = {"HTTP响应": ["头部"], "HTTP请求": ["头部", "查询参数"]}
+LIB_NUMS = {"HTTP响应": ["状态码"], "HTTP请求": []}
+
+
+def lib_probe(rng):
+    cls = rng.choice(sorted(LIB_CTORS))
+    lines = ["导入《@HTTP》", "", "令甲 = %s" % rng.choice(LIB_CTORS[cls])]
+    for pn in LIB_PROPS[cls]:
+        lines.append("（显示：甲之%s）" % pn)
+    lines.append("输出甲之%s" % rng.choice(LIB_PROPS[cls]))
+    return "\n".join(lines) + "\n"
+
+
+def lib_polluter(rng):
+    cls = rng.choice(sorted(LIB_CTORS))
+    lines = ["导入《@HTTP》", "", "令乙 = %s" % rng.choice(LIB_CTORS[cls])]
+    for _ in range(rng.randrange(1, 5)):
+        k = rng.randrange(6)
+        if k == 0 and LIB_DICTS[cls]:
+            lines.append("乙之%s#“%s” = “%s”" % (rng.choice(LIB_DICTS[cls]), rng.choice(["Set-Cookie", "Content-Type", "X"]), rng.choice(["s=1", "t"])))
+        elif k == 1 and LIB_DICTS[cls]:
+            lines.append("以乙之%s（写入：“%s”、%d）" % (rng.choice(LIB_DICTS[cls]), rng.choice(["K", "Content-Type"]), rng.randrange(9)))
+        elif k == 2 and LIB_DICTS[cls]:
+            lines.append("以乙之%s（移除：“Content-Type”）" % rng.choice(LIB_DICTS[cls]))
+        elif k == 3 and LIB_NUMS[cls]:
+            lines.append("以乙之%s（自增：%d）" % (rng.choice(LIB_NUMS[cls]), rng.randrange(1, 9)))
+        elif k == 4:
+            lines.append("乙之%s = %s" % (rng.choice(LIB_PROPS[cls]), rng.choice(["“改”", "7", "【“z” = 1】"])))
+        else:
+            lines.append("（显示：乙之%s）" % rng.choice(LIB_PROPS[cls]))
+    if rng.random() < 0.2:
+        lines.append("输出1 / 0")
+    return "\n".join(lines) + "\n"
+
+
+def run_lib_objects(chk, n, replay=None):
+    rng = chk.rng
+    cases = []
+    if replay is not None:
+        cases = [(replay["polluter_texts"], replay["probe_text"])]
+    else:
+        for _ in range(n):
+            cases.append(([lib_polluter(rng) for _ in range(rng.randrange(1, 4))], lib_probe(rng)))
+    for shared in (True, False):
+        seqs = core.harness("c16", "seq", [{"progs": ps + [q], "shared": shared} for ps, q in cases])
+        alone = core.harness("c16", "seq", [{"progs": [q], "shared": shared} for ps, q in cases])
+        for (ps, q), o, a in zip(cases, seqs, alone):
+            chk.count(["libseq", shared, ps, q])
+            chk.dist("libobj:%s" % ("shared-interpreter" if shared else "separate-interpreters"))
+            if "outs" not in o or "outs" not in a:
+                chk.violation("execution sequence with library objects crashed the process: %s" % json.dumps(o)[:200], "libobj:crash",
+                              {"kind": "libobj", "polluter_texts": ps, "probe_text": q, "observed": o})
+                continue
+            got, ref = o["outs"][-1], a["outs"][0]
+            if got != ref:
+                def show(x):
+                    return ["".join(chr(c) for c in l) for l in x.get("display", [])]
+                chk.violation("the outcome of a program that builds a library object depends on the programs executed before it in the same "
+                              "process: after %s the probe %s displays %s, alone %s"
+                              % (json.dumps(ps, ensure_ascii=False)[:260], json.dumps(q, ensure_ascii=False)[:160], show(got), show(ref)),
+                              "libobj:polluted", {"kind": "libobj", "polluter_texts": ps, "probe_text": q, "shared_interpreter": shared,
+                                                  "observed": got, "alone": ref, "replay_cmd": "./check C16 --replay <this file>"})
+
+
 def truncate_after_error(ops, obs):
     """a program stops at its first uncaught error: later operations produce no observation"""
     return obs
@@ -138,6 +213,9 @@ def truncate_after_error(ops, obs):
 def run(chk, replay=None):
     rng = chk.rng
     quick = chk.tier == "quick"
+    if replay is not None and replay.get("kind") == "libobj":
+        run_lib_objects(chk, 0, replay)
+        return
     nseq = 60 if quick else 600
     seqs = []
     # witnesses of the catalogue first
@@ -184,6 +262,7 @@ def run(chk, replay=None):
                                "observed": got, "alone": ref, "model": want, "replay_cmd": "./check C16 --replay <this file>"})
     if replay is not None:
         return
+    run_lib_objects(chk, 60 if quick else 800)
     chk.sample({"polluters": [render(p) for p in seqs[3][0]] if len(seqs) > 3 else [], "probe": render(seqs[-1][1])})
     # interleavings over one shared interpreter, replayed at method granularity
     nsch = 60 if quick else 600
